@@ -104,47 +104,63 @@ def _run_exc(n, ne, es):
     return out, rows
 
 
-def _compare(ctx, case, backends, cbin_variants):
-    """Replay one generated case; returns True if it was non-trivial (more than one yield)."""
+I_CLAUSES = ('out', 'yields', 'rows')       # agreement with the transcription; the P-layer clauses judge
+
+
+def _clip(t, a, b, n):
+    return [min(max(t[a], 0), n), min(max(t[b], 0), n)]
+
+
+def _compare(ctx, case, backends, cbin_variants, fallback):
+    """Replay one generated case. Equality with the specification's I-layer output is the fast path; an
+    output that differs is not a violation by itself: it is handed to the trace specification, whose
+    P-layer clauses (Tiles, Inside, Size, BoundsValid, IterTiles, ExcerptsValid ...) judge it."""
     mode = case['mode']
     if mode == 'gen':
-        out, kept, full = _run_gen(case['n'], case['cs'], case['ov'])
-        ok = (out == case['out'] and len(kept) == len(case['kept']) and
-              all(_same_interval(a, b) for a, b in zip(kept, case['kept'])) and
-              all(_same_interval(a, b) for a, b in zip(full, case['full'])))
-        if not ok:
-            ctx.violation('gen', 'chunk_bounds/data_chunk(n=%d, cs=%d, ov=%d) differs from the '
-                          'specification' % (case['n'], case['cs'], case['ov']),
-                          dict(case=case, observed=dict(out=out, kept=kept, full=full)))
+        n = case['n']
+        out, kept, full = _run_gen(n, case['cs'], case['ov'])
         ctx.traces += 1
+        # data_chunk is slicing: kept / full parts are the clipped intervals of the yielded tuples
+        if not (len(kept) == len(out) and
+                all(_same_interval(a, _clip(t, 2, 3, n)) for a, t in zip(kept, out)) and
+                all(_same_interval(a, _clip(t, 0, 1, n)) for a, t in zip(full, out))):
+            ctx.violation('gen', 'data_chunk does not return the rows of the yielded chunk (n=%d, cs=%d, ov=%d)'
+                          % (n, case['cs'], case['ov']), dict(case=case, observed=dict(out=out, kept=kept, full=full)))
+        if out != case['out']:
+            ctx.note('gen', 'chunk_bounds(%d, %d, %d) yields %r, transcription %r' % (n, case['cs'], case['ov'], out, case['out']))
+            fallback.append(dict(mode='gen', n=n, cs=case['cs'], ov=case['ov'], out=out))
         return len(case['out']) > 1
     if mode == 'bounds':
         res = _run_bounds(ctx, case['sizes'], case['chunk'], backends)
         for backend, (b, ys) in res.items():
             ctx.traces += 1
             if b != case['out'] or (ys is not None and ys != case['yields']):
-                ctx.violation('bounds', 'chunk bounds / iter_chunks of %s reader for sizes=%r '
-                              'chunk=%d differ from the specification' % (
-                                  backend, case['sizes'], case['chunk']),
-                              dict(case=case, backend=backend, observed=dict(out=b, yields=ys)))
+                ctx.note('bounds', '%s reader over %r / chunk %d: bounds %r, transcription %r' % (
+                    backend, case['sizes'], case['chunk'], b, case['out']))
+                fallback.append(dict(mode='bounds', sizes=case['sizes'], chunk=case['chunk'], out=b,
+                                     yields=ys if ys is not None else [[b[q], b[q + 1]] for q in range(len(b) - 1)],
+                                     _backend=backend))
         return len(case['out']) > 2
     if mode == 'cbin':
         for cache, short_last in cbin_variants:
             out, data_ok = _run_cbin(ctx, case['nch'], case['nth'], cache, short_last)
             ctx.traces += 1
-            if out != case['out'] or not data_ok:
-                ctx.violation('cbin', 'compressed iter_chunks (chunks=%d, threads=%d, cache=%s) '
-                              'differs from the specification' % (case['nch'], case['nth'], cache),
-                              dict(case=case, cache=cache, short_last=short_last,
-                                   observed=dict(out=out, data_ok=data_ok)))
+            if not data_ok or (out and out[0] == [-1, -1]):
+                ctx.violation('cbin', 'compressed iter_chunks (chunks=%d, threads=%d, cache=%s): the data read '
+                              'through the yielded intervals is not the recording / the intervals are not chunk '
+                              'bounds' % (case['nch'], case['nth'], cache),
+                              dict(case=case, cache=cache, short_last=short_last, observed=dict(out=out, data_ok=data_ok)))
+            elif out != case['out']:
+                ctx.note('cbin', 'compressed iter_chunks (%d chunks, %d threads) yields %r, transcription %r' % (
+                    case['nch'], case['nth'], out, case['out']))
+                fallback.append(dict(mode='cbin', nch=case['nch'], nth=case['nth'], out=out))
         return case['nch'] > 1
     if mode == 'exc':
         out, rows = _run_exc(case['n'], case['ne'], case['es'])
         ctx.traces += 1
         if out != case['out'] or rows != case['rows']:
-            ctx.violation('exc', 'excerpts/get_excerpts(n=%d, ne=%d, es=%d) differ from the '
-                          'specification' % (case['n'], case['ne'], case['es']),
-                          dict(case=case, observed=dict(out=out, rows=rows)))
+            ctx.note('exc', 'excerpts(%d, %d, %d) = %r, transcription %r' % (case['n'], case['ne'], case['es'], out, case['out']))
+            fallback.append(dict(mode='exc', n=case['n'], ne=case['ne'], es=case['es'], out=out, rows=rows))
         return len(case['out']) > 1
     raise MachineryError('unknown mode %r' % mode)
 
@@ -210,6 +226,7 @@ def run(ctx):
     cbin_variants = [(False, False), (True, True)] if ctx.quick else [
         (False, False), (True, False), (False, True), (True, True)]
     seen = set()
+    fallback = []
     for case in tlc.read_cases(path):
         key = repr(sorted(case.items()))
         if key in seen:
@@ -217,7 +234,7 @@ def run(ctx):
         seen.add(key)
         ctx.evaluations += 1
         with ctx.guard(case['mode'], case):
-            if _compare(ctx, case, backends, cbin_variants):
+            if _compare(ctx, case, backends, cbin_variants, fallback):
                 ctx.nontrivial += 1
         if ctx.abort:
             break
@@ -234,11 +251,19 @@ def run(ctx):
         recs = _random_records(ctx, 120 if ctx.quick else 1200)
     if not recs:
         return
-    for k in range(0, len(recs), 400):
-        for rid, clause in ctx.validate('Trace_Chunking', 'Trace_Chunking.cfg', recs[k:k + 400],
-                                        note='random runs beyond the exhaustive bounds',
+    # outputs that differ from the transcription are judged by the P-layer together with the random runs
+    for r in fallback[:4000]:
+        r['id'] = len(recs) + 1
+        recs.append(r)
+    clean = [dict((a, b) for a, b in r.items() if not a.startswith('_')) for r in recs]
+    for k in range(0, len(clean), 400):
+        for rid, clause in ctx.validate('Trace_Chunking', 'Trace_Chunking.cfg', clean[k:k + 400],
+                                        note='random runs beyond the exhaustive bounds + outputs differing from the transcription',
                                         timeout=1500):
             r = [x for x in recs if x['id'] == rid][0]
+            if clause in I_CLAUSES:
+                ctx.note(r['mode'], 'recorded %s run differs from the transcription (clause %s)' % (r['mode'], clause))
+                continue
             ctx.violation(r['mode'], 'recorded %s run rejected by the specification: clause %s' % (
                 r['mode'], clause), dict(record=r, clause=clause))
     ctx.sample(recs[0])
@@ -249,6 +274,8 @@ def replay(ctx, doc):
     case = doc['case']
     c = case.get('case') or case.get('record') or case
     if 'kept' in c or 'rows' in c or 'yields' in c or c.get('mode') == 'cbin':
+        fb = []
         _compare(ctx, c, ('flat', 'array', 'npy'),
-                 [(False, False), (True, False), (False, True), (True, True)])
+                 [(False, False), (True, False), (False, True), (True, True)], fb)
+        print('outputs differing from the transcription (judged by Trace_Chunking in a full run): %d' % len(fb))
     print('replayed: %d violation(s)' % len(ctx.violations))
